@@ -3925,6 +3925,10 @@ static WBXMLError wbxml_strtbl_check_references(WBXMLEncoder *encoder, WBXMLList
             /* New Reference Element */
             if ((ref = wbxml_strtbl_element_create(string, stat_buff)) == NULL)
             {
+                /* 'string' was extracted from the list: nobody else frees it */
+                if (!stat_buff)
+                    wbxml_buffer_destroy(string);
+
                 wbxml_list_destroy(referenced, wbxml_strtbl_element_destroy_item);
 
                 if (!stat_buff)
@@ -3940,6 +3944,8 @@ static WBXMLError wbxml_strtbl_check_references(WBXMLEncoder *encoder, WBXMLList
 
             if (!wbxml_list_append(referenced, (void *) ref))
             {
+                /* 'ref' (and the string it owns) is in no list yet */
+                wbxml_strtbl_element_destroy(ref);
                 wbxml_list_destroy(referenced, wbxml_strtbl_element_destroy_item);
 
                 if (!stat_buff)
